@@ -354,7 +354,7 @@ def q_layouts(tier):
     return ("8x8/4x4", "7x10/3x4", "8x10/var", "7x10/4x4", "8x8/3x4", "7x10/var", "8x8/1tile")
 
 
-Q_EXTRA = ((("nonsq", "same"), ("nonsq", "other"), ("offgrid", "same"), ("utm", "same")), ("10x7/var", "8x10/zero"))
+Q_EXTRA = ((("nonsq", "same"), ("nonsq", "other"), ("offgrid", "same")), ("10x7/var", "8x10/zero"))
 
 
 def gen_query():
@@ -1539,24 +1539,51 @@ LAYOUTS["88x88/44"] = ((88, 88), (44, 44))
 CORNERS = ("SW", "SE", "NW", "NE", "centre")
 
 
+CORNER_GAPS = ("in-corner", 1.0, 0.4)  # distance to the tilted raster edge in pixels of the coarser raster
+
+
 def gen_corner():
-    yield from itertools.product((0, 30), ("big-dst", "big-src"), CORNERS, (0.5, 4.0))
+    for rot, direction, corner in itertools.product((0, 30), ("big-dst", "big-src"), CORNERS):
+        for gap in (CORNER_GAPS if corner != "centre" else ("in-corner",)):
+            yield (rot, direction, corner, gap)
 
 
 def run_corner(case):
-    rot, direction, corner, inset = case
+    rot, direction, corner, gap = case
     Ab = (1000.0, 0.0, 1500000.0, 0.0, -1000.0, -3900000.0) if rot == 0 else _rot30(1500000.0, -3900000.0, 1000.0, -1000.0)
     bl, sl_ = "200x200/100", "88x88/44"
     ring = project_pts([aff_apply(Ab, x, y) for x, y in densify(rect_pts(*full_rect(bl)), 64)], 3577, 4326)
     lo_x, hi_x = min(p[0] for p in ring), max(p[0] for p in ring)
     lo_y, hi_y = min(p[1] for p in ring), max(p[1] for p in ring)
     res, n = 0.001, 88
-    if corner == "centre":
-        x0, y0 = (lo_x + hi_x) / 2 - n * res / 2, (lo_y + hi_y) / 2 + n * res / 2
-    else:
-        x0 = lo_x + inset * res if corner[1] == "W" else hi_x - (n + inset) * res
-        y0 = hi_y - inset * res if corner[0] == "N" else lo_y + (n + inset) * res
-    As = (res, 0.0, round(x0, 6), 0.0, -res, round(y0, 6))
+    cen = ((lo_x + hi_x) / 2 - n * res / 2, (lo_y + hi_y) / 2 + n * res / 2)
+    Bfoot = Polygon([aff_apply(Ab, x, y) for x, y in rect_pts(*full_rect(bl))])
+
+    def small_affine(t):
+        if corner == "centre":
+            x0, y0 = cen
+        else:
+            cx = lo_x + 0.5 * res if corner[1] == "W" else hi_x - (n + 0.5) * res
+            cy = hi_y - 0.5 * res if corner[0] == "N" else lo_y + (n + 0.5) * res
+            x0, y0 = cx + t * (cen[0] - cx), cy + t * (cen[1] - cy)
+        return (res, 0.0, round(x0, 7), 0.0, -res, round(y0, 7))
+
+    def small_foot(A):
+        return Polygon(project_pts([aff_apply(A, x, y) for x, y in densify(rect_pts(*full_rect(sl_)), 16)], 4326, 3577))
+
+    t = 0.0
+    if gap != "in-corner":
+        # slide the small raster from the corner of the bounding box towards its centre until it is `gap`
+        # coarse pixels away from the tilted edge of the big raster (bisection, deterministic)
+        lo, hi = 0.0, 1.0
+        for _ in range(40):
+            t = (lo + hi) / 2
+            if Bfoot.distance(small_foot(small_affine(t))) > gap * 1000.0:
+                lo = t
+            else:
+                hi = t
+        t = lo
+    As = small_affine(t)
     big, small = mk_gbt(3577, Ab, bl), mk_gbt(4326, As, sl_)
     if direction == "big-dst":
         dst, src, Ad, de, se, dl, sl = big, small, Ab, 3577, 4326, bl, sl_
@@ -1576,12 +1603,13 @@ def run_corner(case):
         relation = "overlap"
     else:
         relation = "touch"
-    what = (f"EPSG:3577 raster {Ab} 200x200 (rot {rot}) and EPSG:4326 raster {As} 88x88 in the {corner} corner of its "
-            f"lon/lat bounding box, {direction}")
+    what = (f"EPSG:3577 raster {Ab} 200x200 (rot {rot}) and EPSG:4326 raster {As} 88x88 towards the {corner} corner of its "
+            f"lon/lat bounding box (gap {gap}), {direction}")
     r = R()
     deps = dst.grid_intersect(src)
-    nreq, nedges = judge_pairs(r, deps, D, S, pix, 0.01, relation, "cross-crs", f"bbox-corner:{direction}", what)
-    r.outcome = f"corner:{direction}:{'centre' if corner == 'centre' else 'corner'}:{relation}:req={bucket(nreq, -1)}:{'empty-dict' if not deps else 'keys'}"
+    nreq, nedges = judge_pairs(r, deps, D, S, pix, 0.01, relation, "cross-crs-bbox-corner", direction, what)
+    r.outcome = (f"corner:{direction}:{'centre' if corner == 'centre' else 'corner'}:gap={gap}:{relation}:req={bucket(nreq, -1)}:"
+                 f"{'empty-dict' if not deps else 'keys'}")
     return r
 
 
@@ -1883,14 +1911,20 @@ def run_snap(case):
 
 # ---- one instance, several operations; lazily filled state read first ------------------------------------
 HI_PRELUDES = ("none", "extent", "boundingbox", "geographic_extent", "footprint", "crs-epsg", "tile-extents")
-HI_OPS = ("tiles-triangle-same-crs", "tiles-box-4326", "grid_intersect-linear", "grid_intersect-general")
+HI_OPS = ("tiles-triangle-same-crs", "tiles-box-4326", "grid_intersect-linear", "grid_intersect-general",
+          "grid_intersect-linear-other-chunks")
+HI_LIN = ("8x10/var", ((4, 3, 1), (8, 2)))  # two chunkings of one source raster with equal tile counts
 
 
 def gen_hinst():
     k = 0
-    for base, layout, pre, order in itertools.product(
-        ("utm", "rot30"), ("8x8/4x4", "8x10/var"), HI_PRELUDES, itertools.permutations(range(len(HI_OPS)))
-    ):
+    n = len(HI_OPS)
+    if _TIER[0] == "quick":  # every op in every position, both directions; thorough: every order
+        fw = [tuple((i + j) % n for j in range(n)) for i in range(n)]
+        orders = fw + [o[::-1] for o in fw]
+    else:
+        orders = list(itertools.permutations(range(n)))
+    for base, layout, pre, order in itertools.product(("utm", "rot30"), ("8x8/4x4", "8x10/var"), HI_PRELUDES, orders):
         k += 1
         yield (k, base, layout, pre, order)
 
@@ -1926,7 +1960,7 @@ def run_hinst(case):
 
     def operands():
         g0 = GeoBox(shape, Affine(*Ad), crs)
-        gl = GeoBox(LAYOUTS["7x10/3x4"][0], Affine(*A_lin), crs)
+        gl = GeoBox(LAYOUTS[HI_LIN[0]][0], Affine(*A_lin), crs)
         gr = GeoBox(LAYOUTS["8x10/var"][0], Affine(*A_rot), crs)
         q1 = geom.polygon(tri + [tri[0]], crs)
         q2 = geom.polygon(box4326 + [box4326[0]], "EPSG:4326")
@@ -1939,7 +1973,9 @@ def run_hinst(case):
         if op == 1:
             return list(G.tiles(q2))
         if op == 2:
-            return G.grid_intersect(GeoboxTiles(gl, LAYOUTS["7x10/3x4"][1]))
+            return G.grid_intersect(GeoboxTiles(gl, LAYOUTS[HI_LIN[0]][1]))
+        if op == 4:
+            return G.grid_intersect(GeoboxTiles(gl, HI_LIN[1]))
         return G.grid_intersect(GeoboxTiles(gr, LAYOUTS["8x10/var"][1]))
 
     def norm(v):
@@ -1981,8 +2017,12 @@ def run_hinst(case):
                 f"history-instance:{HI_OPS[1]}:after-{pre}:missing", f"history-instance:{HI_OPS[1]}:after-{pre}:extra",
                 what + " box query in EPSG:4326", exact=True)
     pix = aff_pixarea(Ad)
-    judge_pairs(r, first[2], F, tile_polys(A_lin, "7x10/3x4"), pix, 1e-9, "overlap",
+    judge_pairs(r, first[2], F, tile_polys(A_lin, HI_LIN[0]), pix, 1e-9, "overlap",
                 f"history-instance:after-{pre}", "linear", what)
+    yo2, xo2 = offsets(8, HI_LIN[1][0]), offsets(10, HI_LIN[1][1])
+    S2 = {(i, j): Polygon([aff_apply(A_lin, x, y) for x, y in rect_pts(xo2[j], yo2[i], xo2[j + 1], yo2[i + 1])])
+          for i in range(len(yo2) - 1) for j in range(len(xo2) - 1)}
+    judge_pairs(r, first[4], F, S2, pix, 1e-9, "overlap", f"history-instance:after-{pre}", "linear-other-chunks", what)
     judge_pairs(r, first[3], F, tile_polys(A_rot, "8x10/var"), pix, 1e-9, "overlap",
                 f"history-instance:after-{pre}", "general", what)
     r.outcome = f"history-instance:{pre}:first-op={HI_OPS[order[0]]}"
@@ -2294,6 +2334,19 @@ def main(ctx):
         "32-point densification); 'no edge' is demanded when the footprints are disjoint (gap > 1e-6 pixel same "
         "CRS, > 1/4 destination pixel across CRSs); extra edges are allowed otherwise",
         "tiled GCP rasters are not enumerated (the property's quantifier lists affine rasters)",
+        "nearly aligned grids (drift / snap slices): an overlap thinner than the library's documented snapping "
+        "tolerances can move an edge (translation 1e-3 px, scale 1e-6, rotation 1e-8, times the raster length) is a "
+        "sliver and not required even when its area exceeds half a pixel",
+        "zero-length chunks: an empty tile's footprint has no interior, it is neither required nor forbidden when "
+        "touched and forbidden when clearly apart",
+        "empty query geometries: no tiles; a CRS-less empty geometry on a raster with CRS may also be refused (ValueError)",
+        "a fully degenerate (single point) BoundingBox given in ANOTHER CRS is not enumerated (observed: GEOSException "
+        "after check_and_fix collapses the polygon); zero-width / zero-area boxes in the raster's CRS and in the "
+        "pixel plane are, and must return every tile that has a box point strictly inside",
+        "tile shapes / chunks are enumerated in the spellings the signature admits (tuple, list, numpy ints, Shape2d, "
+        "wh_, nested tuples / lists); numpy arrays are refused by the library (ValueError / TypeError) and not judged",
+        "history slices: a raster of its own per case, so that remembered state comes from this case; the differential "
+        "clause compares with fresh objects, the oracle clauses are state-independent",
     ]
     sl = slices(ctx.tier)
     if ctx.only:
